@@ -298,6 +298,35 @@ class FullOps(TorchCalls):
             return t.but(axes=(tag,), span=False)
         return self.unk("diag of >2-d", node)
 
+    def einsum(self, spec: str, ops: list, node, env):
+        """A few einsum patterns, read as the operator they spell: sums over axes of one operand (`ij->j`), its diagonal (`ii->i`),
+        transposition (`ij->ji`), and the contraction of the last axis of one operand with the first of another (`ij,jk->ik`,
+        `ij,j->i`, `i,i->`). Anything else: None."""
+        if "->" not in spec or any(t is None for t in ops) or "." in spec:
+            return None
+        ins, out = spec.split("->")
+        ins = ins.split(",")
+        if len(ins) != len(ops) or any(len(i_) != len(t.axes) for i_, t in zip(ins, ops)):
+            return None
+        if len(ops) == 1:
+            i_, t = ins[0], ops[0]
+            if len(set(i_)) == len(i_) and set(out) <= set(i_) and len(set(out)) == len(out):
+                if sorted(out) == sorted(i_):
+                    return t if out == i_ else (self.tensor_method(t, "t", [], {}, node, env) if len(i_) == 2 else None)
+                kept = [c for c in i_ if c in out]
+                if "".join(kept) != out:
+                    return None
+                dims = [k for k, c in enumerate(i_) if c not in out]
+                return self.reduce(t, "sum", ListV(items=tuple(Const(d) for d in dims)) if len(dims) > 1 else Const(dims[0]), False, node)
+            if len(i_) == 2 and i_[0] == i_[1] and out == i_[0]:
+                return self.diag(t, node)
+            return None
+        if len(ops) == 2:
+            (a, b), (ta, tb) = ins, ops
+            if a and b and a[-1] == b[0] and a[-1] not in out and out == a[:-1] + b[1:] and len(set(a)) == len(a) and len(set(b)) == len(b) and not (set(a[:-1]) & set(b[1:])):
+                return self.matmul(ta, tb, node)
+        return None
+
     # =========================================================================== library functions
     def call_lib(self, lib, fn, args, kwargs, node, env):
         np_ = lib.startswith("numpy")
@@ -403,7 +432,7 @@ class FullOps(TorchCalls):
             return TV(kind="pyfloat", note="finfo:" + tag, dtype="Py")
         if fn in ("is_tensor", "is_floating_point"):
             return TV(kind="pybool", dtype="Bool")
-        if a0 is None and fn not in ("cat", "concatenate", "stack", "vstack", "hstack", "vmap", "grad", "backward", "apply_along_axis", "block_diag", "multi_dot", "ndindex"):
+        if a0 is None and fn not in ("cat", "concatenate", "stack", "vstack", "hstack", "vmap", "grad", "backward", "apply_along_axis", "block_diag", "multi_dot", "ndindex", "einsum"):
             return self.unk(f"{lib}{fn} on non-numeric argument", node)
 
         if fn in ("isfinite", "isnan", "isinf"):
@@ -519,6 +548,16 @@ class FullOps(TorchCalls):
             out = TV(kind=kind, axes=a0.axes + (tag,), p=a0.p and (ok or tag != "R"), q=a0.q, s=a0.s, z=a0.z, deg=F0, dtype="Int",
                      origin=a0.origin, gen=a0.gen, rng=a0.rng)
             return self.tag(out, "one_hot", node, classes_poly=n.poly if n is not None else None, in_idx_of=a0.idx_of, in_origin=sorted(a0.origin))
+
+        if fn == "bincount" and a0 is not None and len(a0.axes) == 1 and "weights" not in kwargs and len(args) == 1:
+            # bincount(indices, minlength=n): how often each position occurs — for distinct indices the sum of their one-hot vectors
+            n = tv_of(kwargs.get("minlength"))
+            tag = n.size_of if n is not None and n.size_of else "K"
+            ok = a0.idx_of == tag
+            if not ok and tag == "R":
+                self.clear("p", "bincount of values that are not row indices", node)
+            out = TV(kind=kind, axes=(tag,), p=a0.p and (ok or tag != "R"), q=a0.q, s=a0.s, z=a0.z, deg=F0, dtype="Int", origin=a0.origin, gen=a0.gen, rng=a0.rng)
+            return self.tag(out, "bincount", node, classes_poly=n.poly if n is not None else None, in_idx_of=a0.idx_of, in_origin=sorted(a0.origin))
 
         # ---- reductions
         if fn in SYM_REDUCTIONS or fn == "vector_norm" or fn == "matrix_norm":
@@ -654,6 +693,13 @@ class FullOps(TorchCalls):
             return self.tag(out, "cdist", node, p=str(pn), compute_mode=cm.v if isinstance(cm, Const) else None, both_raw=raw(a0) and raw(b))
         if fn == "diag":
             return self.diag(a0, node)
+        if fn == "diag_embed" and a0 is not None and len(a0.axes) == 1 and len(args) == 1 and not kwargs:
+            return self.diag(a0, node)  # on a vector, diag_embed is diag
+        if fn == "einsum" and args and isinstance(args[0], Const) and isinstance(args[0].v, str) and not kwargs:
+            r_ = self.einsum(args[0].v.replace(" ", ""), [tv_of(x) for x in args[1:]], node, env)
+            if r_ is not None:
+                return r_
+            return self.unk(f"einsum pattern {args[0].v!r}", node)
         if fn == "diagonal":
             return self.diag(a0, node) if len(a0.axes) == 2 else self.unk("diagonal", node)
         if fn == "trace":
@@ -808,6 +854,8 @@ class FullOps(TorchCalls):
             if v is not None:
                 t = t.but(p=v.p, q=v.q, s=v.s, z=v.z, deg=v.deg)
             return t
+        if fn in ("norm2", "pnorm") and args and not kwargs:
+            fn, args = "norm", ([args[0], Const(2)] if fn == "norm2" else list(args))  # cp.norm2(x) is cp.norm(x, 2)
         if fn in ("norm", "sum", "log", "Minimize", "Maximize", "sqrt", "square", "sum_squares", "quad_form", "geo_mean", "exp"):
             a0 = tv_of(args[0]) if args else None
             if a0 is None:
